@@ -31,11 +31,11 @@ def _v3(repo, mod):
     return replace_node(mod, c, "cdg.graph.add_edge(pred, succ, branch_value=True)")
 
 
-@variant("C07", "visit-node-by-jump-line", P311, "C07.agree", "visit_node skips by the line of the jump only (seed C07-b)")
+@variant("C07", "visit-node-ignores-the-jump-line", P311, "C07.agree", "visit_node no longer requires the line of the jump to be covered, the covered CDG still does")
 def _v4(repo, mod):
     fn = repo.func(P311, "BranchCoverageInstrumentation.visit_node")
-    i = find_node(fn, lambda n: isinstance(n, ast.If) and "original_instructions" in norm(n.test))
-    return replace_node(mod, i.test, "ast_info is not None and isinstance(maybe_jump.lineno, int) and not ast_info.should_cover_line(maybe_jump.lineno)")
+    c = find_node(fn, lambda n: isinstance(n, ast.Call) and norm(n) == "ast_info.should_cover_line(maybe_jump.lineno)")
+    return replace_node(mod, c, "True")
 
 
 @variant("C07", "cdg-keeps-blocks-with-excluded-condition", TRF, "C07.agree", "covered CDG ignores excluded conditional statements")
@@ -45,11 +45,11 @@ def _v5(repo, mod):
     return replace_node(mod, c, "True")
 
 
-@variant("C07", "visit-node-310-ignores-lines", P310, "C07.agree", "3.10 visit_node no longer skips blocks without covered lines")
+@variant("C07", "visit-node-310-ignores-excluded-conditions", P310, "C07.agree", "3.10 visit_node no longer asks whether the conditional statement is excluded")
 def _v6(repo, mod):
     fn = repo.func(P310, "BranchCoverageInstrumentation.visit_node")
-    i = find_node(fn, lambda n: isinstance(n, ast.If) and "original_instructions" in norm(n.test))
-    return replace_node(mod, i.test, "False")
+    c = find_node(fn, lambda n: isinstance(n, ast.Call) and norm(n) == "ast_info.should_cover_conditional_statement(maybe_jump.lineno)")
+    return replace_node(mod, c, "True")
 
 
 @variant("C07", "deps-stop-at-unlabelled-edges", CF, "C07.deps", "dependencies are not looked up through unlabelled edges")
